@@ -195,6 +195,19 @@ class Printer:
                 for n, d in table.names.items():
                     if d is tf:
                         out.append(".".join([n] + qp))
+            if not out:
+                # reachable only through the imports of an imported file: `b.c.M`
+                def through(g: File, prefix: List[str], depth: int) -> None:
+                    for imp in g.imports:
+                        if imp.file is tf:
+                            out.append(".".join(prefix + [imp.bound_name] + qp))
+                        elif depth < 3:
+                            through(imp.file, prefix + [imp.bound_name], depth + 1)
+
+                for table in self.chain[:1]:
+                    for n, d in table.names.items():
+                        if isinstance(d, File):
+                            through(d, [n], 1)
         return out
 
     def path_for(self, target: Any) -> str:
